@@ -181,6 +181,7 @@ type wsMessage struct {
 }
 
 func dialWS(api *apifu.API, v WSVariant) (*wsSession, error) {
+
 	if v.Proto == "" {
 		v.Proto = "graphql-ws"
 	}
@@ -229,18 +230,34 @@ func dialWS(api *apifu.API, v WSVariant) (*wsSession, error) {
 	}
 }
 
-func (s *wsSession) close() {
-	if s.conn != nil {
-		if s.proto == "graphql-ws" {
-			s.conn.WriteJSON(wsMessage{Type: "connection_terminate"})
-		}
-		s.conn.Close()
+// closeClient ends the client's side (so that the server-side close below never has to wait for a
+// close handshake that nobody answers).
+func (s *wsSession) closeClient() {
+	if s.conn == nil {
+		return
 	}
+	if s.proto == "graphql-ws" {
+		s.conn.WriteJSON(wsMessage{Type: "connection_terminate"})
+	}
+	s.conn.WriteControl(websocket.CloseMessage, websocket.FormatCloseMessage(websocket.CloseNormalClosure, ""), time.Now().Add(time.Second))
+	s.conn.SetReadDeadline(time.Now().Add(time.Second))
+	for {
+		if _, _, err := s.conn.ReadMessage(); err != nil {
+			break
+		}
+	}
+	s.conn.Close()
+	s.conn = nil
+}
+
+func (s *wsSession) close() {
+	s.closeClient()
 	s.api.CloseHijackedConnections()
 	s.ts.Close()
 }
 
 func (s *wsSession) run(w *world, q *query) (o outcome) {
+
 	w.mu.Lock()
 	w.log = nil
 	w.mu.Unlock()
@@ -349,6 +366,9 @@ func (h *harness) checkAPI(spec *Spec, r interface {
 			}
 		}
 		closeWS := func() {
+			for _, sess := range wsA {
+				sess.closeClient() // all clients of this API first: CloseHijackedConnections closes every connection of the API
+			}
 			for _, sess := range wsA {
 				sess.close()
 			}
